@@ -3,14 +3,21 @@
 (* C10: all rooted directed graphs with at most MaxN nodes and ordered      *)
 (* successor lists of length <= 2 (self-loops, diamonds, back-edges, shared *)
 (* and duplicate successors), two labelings each.  One TLC state per graph. *)
+(* Big: chains of N nodes whose last node points back to node k, for k on   *)
+(* both sides of the width changes of the object number (127 | 128,         *)
+(* 255 | 256): the numbers of late objects take two bytes (seeded S30).     *)
 (***************************************************************************)
 EXTENDS Refs, Json
-CONSTANT MaxN
+CONSTANTS MaxN, Big
 VARIABLES n, succ
 vars == <<n, succ>>
 
 Lists(k) == {<<>>} \cup {<<x>> : x \in 1..k} \cup {<<x, y>> : x \in 1..k, y \in 1..k}
-Init == n \in 1..MaxN /\ succ \in [1..n -> Lists(n)]
+BackTargets(N) == {k \in {1, 2, 63, 64, 127, 128, 129, 255, 256, 257, N - 1, N} : k >= 1 /\ k <= N}
+ChainSucc(N, k) == [i \in 1..N |-> IF i < N THEN <<i + 1>> ELSE <<k>>]
+Init == \/ n \in 1..MaxN /\ succ \in [1..n -> Lists(n)]
+        \/ \E N \in Big : \E k \in BackTargets(N) : n = N /\ succ = ChainSucc(N, k)
+IsBig == n > MaxN
 Next == UNCHANGED vars
 Spec == Init /\ [][Next]_vars
 
@@ -31,13 +38,20 @@ WrittenOnce == \A lab \in Labelings : LET e == EncGraph(G(lab)) IN
 \* of the stream to tablesize + 1 and + 2; whenever the reader then reaches a reference
 \* beyond the objects introduced so far the result is BadRefId (or another error)
 TamperVals(e) == {Len(e.tab) + 1, Len(e.tab) + 2}
-Tampered(e) == {<<i, a>> : i \in 1..Len(e.b), a \in TamperVals(e)}
+Tampered(e) == IF IsBig THEN {} ELSE {<<i, a>> : i \in 1..Len(e.b), a \in TamperVals(e)}
+\* chains: the back-reference is the last item of the stream; it is replaced by other object numbers
+BackRefLen == Len(VarU(succ[n][1]))
+Tails(e) == IF ~IsBig THEN {} ELSE {VarU(x) : x \in {n - 1, n, n + 1, n + 2, 127, 128, 16384}}
 Verdict(b) == LET d == DecGraph(b) IN IF d.ok THEN <<"ok", d.g, d.p - 1>> ELSE <<"err", d.err>>
 TamperTotal == \A lab \in Labelings : LET e == EncGraph(G(lab)) IN
-                 \A t \in Tampered(e) : Verdict([e.b EXCEPT ![t[1]] = t[2]])[1] \in {"ok", "err"}
+                 /\ \A t \in Tampered(e) : Verdict([e.b EXCEPT ![t[1]] = t[2]])[1] \in {"ok", "err"}
+                 \* a chain whose last item cites object x: the object itself when it exists, BadRefId beyond the table
+                 /\ \A x \in {n + 1, n + 2, 16384} : IsBig =>
+                      Verdict(SubSeq(e.b, 1, Len(e.b) - BackRefLen) \o VarU(x)) = <<"err", "BadRefId">>
 
 Case(lab) == LET e == EncGraph(G(lab)) IN
   [g |-> G(lab), b |-> e.b, canon |-> Canon(G(lab)),
-   tampers |-> {<<t[1], t[2], Verdict([e.b EXCEPT ![t[1]] = t[2]])>> : t \in Tampered(e)}]
+   tampers |-> {<<t[1], t[2], Verdict([e.b EXCEPT ![t[1]] = t[2]])>> : t \in Tampered(e)},
+   tails |-> {<<Len(e.b) - BackRefLen, t, Verdict(SubSeq(e.b, 1, Len(e.b) - BackRefLen) \o t)>> : t \in Tails(e)}]
 EmitCases == PrintT(<<"REPLAY", ToJson([cases |-> {Case(lab) : lab \in Labelings}])>>)
 =============================================================================
